@@ -621,6 +621,22 @@ def _run_check(prop, ctx, t_start, replay):
             notok = [a for a in axs if a.split(".")[-1] not in {x.split(".")[-1] for x in STD_AXIOMS_OK}]
             if notok or thm == "__mismatch__":
                 broken.append(f"Print Assumptions {thm}: unexpected axioms {axs}")
+    coqchk_report = None
+    if ok and ctx.tier == "thorough" and not os.environ.get("VERIF_NO_COQCHK"):
+        # independent re-check of the compiled cone, with the axioms it relies on (thorough tier only: ~1-5 min)
+        modname = "PV." + prop.property_file[:-2].replace("/", ".")
+        rc_chk, out_chk = _run(["timeout", "2400", "coqchk", "-silent", "-o", "-Q", ".", "PV", modname], cwd=ctx.coq_dir, timeout=2500)
+        m_ax = re.search(r"\* Axioms:(.*?)\n\s*\n\* Constants/Inductives relying on type-in-type:(.*?)\n\s*\n\* Constants/Inductives relying on unsafe \(co\)fixpoints:(.*?)\n\s*\n\* Inductives whose positivity is assumed:(.*?)\n", out_chk, re.S)
+        if rc_chk != 0 or not m_ax:
+            broken.append("coqchk failed on the compiled cone: " + out_chk[-400:])
+            coqchk_report = {"rc": rc_chk, "tail": out_chk[-600:]}
+        else:
+            axs = [a.strip() for a in m_ax.group(1).split("\n") if a.strip() and a.strip() != "<none>"]
+            coqchk_report = {"rc": 0, "axioms": axs, "type_in_type": m_ax.group(2).strip(), "unsafe_fixpoints": m_ax.group(3).strip(),
+                             "assumed_positivity": m_ax.group(4).strip()}
+            bad_ax = [a for a in axs if a.split(".")[-1] not in {x.split(".")[-1] for x in STD_AXIOMS_OK}]
+            if bad_ax or any(coqchk_report[k] != "<none>" for k in ("type_in_type", "unsafe_fixpoints", "assumed_positivity")):
+                broken.append(f"coqchk: unexpected axioms or disabled checks: {coqchk_report}")
     hy = hygiene(ctx.coq_dir, cone)
     if hy:
         broken.append("hygiene: " + "; ".join(hy[:5]))
@@ -772,6 +788,7 @@ def _run_check(prop, ctx, t_start, replay):
         "build_s": round(build_s, 2),
         "proofs_rebuilt_or_up_to_date": ok,
         "print_assumptions": pa,
+        "coqchk": coqchk_report,
         "translator": translator_status,
         "known_findings_reported": known_lines,
         "finding_witness_state": witness_state,
